@@ -1125,6 +1125,11 @@ def render_op(inp, W):
     kw = {k: v for k, v in inp.get("kwargs", [])}
     how = inp.get("how", "to_string")
     with contextlib.ExitStack() as st:
+        for name, value in inp.get("settings") or []:
+            # module-level PRINT_* settings (put back afterwards)
+            old = getattr(di, name)
+            setattr(di, name, value)
+            st.callback(lambda n=name, o=old: setattr(di, n, o))
         if W.sym:
             from . import render, stubs, symx, symnp
             util = __import__("dataiter.util", fromlist=["x"])
